@@ -389,13 +389,16 @@ class CallMixin:
         st.env = saved_env
         canon = z3.Const("canon_e", v.Val)
         canon_j = z3.Int("canon_j")
-        ckey = (seq.t.get_id(), z3.substitute(self.box(val), (e, canon), (j0, canon_j)).get_id(),
-                z3.substitute(cond, (e, canon), (j0, canon_j)).get_id())
+        cval = z3.substitute(self.box(val), (e, canon), (j0, canon_j))
+        ccond = z3.substitute(cond, (e, canon), (j0, canon_j))
+        ckey = (seq.t.get_id(), cval.get_id(), ccond.get_id())
         cache = self.__dict__.setdefault("_comp_cache", {})
-        R = cache.get(ckey)
-        if R is None:
+        hit = cache.get(ckey)
+        if hit is None:
             R = self.fresh("comp")
-            cache[ckey] = R
+            cache[ckey] = (R, seq.t, cval, ccond)      # the ASTs are kept alive so that their ids stay unique
+        else:
+            R = hit[0]
         j = z3.Int("j")
         sub = lambda f: z3.substitute(f, (e, v.sat(seq.t, j)), (j0, j))
         st.facts.append(v.ty(R) == v.cls["list"])
